@@ -295,3 +295,46 @@ Lemma varptr_scalar st limit n :
   varptr_ st limit n [] =
   (st, match slookup (v_svars st) n with Some s => Ok (s_vptr s) | None => Err err_IFC end).
 Proof. reflexivity. Qed.
+
+(* ---------- SWAP: the second operand receives the bytes the first one holds AFTER both operands have been
+   located (locating the second one may dimension an array and, in the implementation, run the string
+   collector, which rewrites string descriptors in place: a copy taken earlier would be stale) ---------- *)
+
+Lemma read_write_same st p n b : VInv st -> sigil_ok n -> place_ok st p n ->
+  length b = Z.to_nat (size_bytes n) -> read_place (write_place st p b) p = Ok b.
+Proof.
+  intros V Hs H Hl. destruct p as [m|m lo hi]; simpl in *.
+  - destruct H as [E (s & Ls)]. subst m. rewrite (supdate_slookup_same _ _ b _ Ls). reflexivity.
+  - destruct H as [E (a & k & La & Hk & Hlo & Hhi)]. subst m lo hi. rewrite La. simpl.
+    rewrite (update_buf_lookup_same _ _ _ _ La). simpl. f_equal.
+    destruct (lookup_some _ _ _ La) as [Ha Hn]. pose proof (vi_arr st V) as A.
+    assert (Hok : arr_ok (base_of (v_arr st)) a) by (eapply Forall_forall; [apply inv_arrs, A | exact Ha]).
+    destruct Hok as (_ & _ & _ & Hlen & _ & _). pose proof (size_bytes_pos n Hs). rewrite Hn in Hlen.
+    eapply elem_get_set_same; eauto; lia.
+Qed.
+
+Theorem swap_right_gets_left st limit n1 i1 n2 i2 st' : VInv st -> sigil_ok n1 -> sigil_ok n2 ->
+  swap_ st limit n1 i1 n2 i2 = (st', Ok tt) ->
+  exists st1 st2 left right lb,
+    view_place st limit n1 i1 false = (st1, Ok left) /\ view_place st1 limit n2 i2 true = (st2, Ok right) /\
+    read_place st2 left = Ok lb /\ read_place st' right = Ok lb.
+Proof.
+  intros V H1 H2. unfold swap_.
+  destruct (Z.eqb_spec (py_last n1) (py_last n2)) as [EL|EL]; simpl; [|discriminate].
+  pose proof (size_bytes_last _ _ EL) as ES.
+  destruct (view_place_spec st limit n1 i1 false V H1) as (V1 & G1 & P1).
+  destruct (view_place st limit n1 i1 false) as [st1 r1] eqn:EV1. simpl in *.
+  destruct r1 as [left| | |]; simpl; try discriminate.
+  specialize (P1 left eq_refl).
+  destruct (view_place_spec st1 limit n2 i2 true V1 H2) as (V2 & G2 & P2).
+  destruct (view_place st1 limit n2 i2 true) as [st2 r2] eqn:EV2. simpl in *.
+  destruct r2 as [right| | |]; simpl; try discriminate.
+  specialize (P2 right eq_refl).
+  pose proof (place_ok_grows st1 st2 left n1 V1 G2 P1) as P1'.
+  destruct (read_place_ok st2 right n2 V2 H2 P2) as (rb & Er & Lr & Br).
+  destruct (read_place_ok st2 left n1 V2 H1 P1') as (lb & El & Ll & Bl).
+  rewrite Er. cbn [bindS]. rewrite El. cbn [bindS]. intros E. inversion E; subst st'.
+  exists st1, st2, left, right, lb. repeat split; auto.
+  destruct (write_place_spec st2 left n1 rb V2 H1 P1' ltac:(rewrite ES; exact Lr) Br) as [V3 K3].
+  apply (read_write_same _ right n2 lb V3 H2 (K3 _ _ P2)). rewrite <- ES. exact Ll.
+Qed.
